@@ -501,7 +501,10 @@ def r9(ctx, prop=P, rule="C02.R9"):
     bad = []
     for fa2 in ctx.all_fas():
         for s in sites_any(fa2, (SI_MISS, SI_SIZE)):
-            if fn_of(fa2.body.name) != READ_INFOS_VEC:
+            owner = fn_of(fa2.body.name)
+            # a sibling constructor may use one as the base of a struct-update expression: what it builds
+            # is checked field by field against the dispatch table above
+            if owner != READ_INFOS_VEC and not (owner in (SI_CONTENT, SI_DELETE, SI_TRUNC) and owner.rsplit("::", 1)[0] == SI_MISS.rsplit("::", 1)[0]):
                 bad.append(site_desc(fa2, s) + " in " + fa2.body.name)
     ctx.check(prop, rule, "read-result infos (miss / size) are built only by the read path", not bad, "new_content_miss / new_size only in read_infos_to_vec", "read-result infos built elsewhere: %s" % bad, bad)
 
